@@ -174,6 +174,29 @@ Section Sig.
 
   (* framing done by the signers: prefix || raw signature over msg || suffix *)
   Definition frame (v : variant) (id : N) (raw : bytes) : bytes := prefix v id ++ raw.
+
+  (* ---- signers: the standard signing operation is an oracle as well ---- *)
+  Variable ecdsa_sign_rs : curve -> bytes -> bytes -> bytes -> N * N.   (* curve priv digest randomness -> (r, s) *)
+  Variable ed25519_sign_raw : bytes -> bytes -> bytes.                  (* seed msg -> sig64 *)
+  Variable rsa_pkcs1_sign_raw : bytes -> hasht -> bytes -> bytes.       (* priv hash digest *)
+  Variable rsa_pss_sign_raw : bytes -> hasht -> N -> bytes -> bytes -> bytes. (* priv hash saltlen digest randomness *)
+
+  (* signer.Sign: hash(data [|| 0]), ecdsa.Sign / SignASN1, encode, prefix *)
+  Definition ecdsa_sign (k : ecdsa_key) (sk rnd msg : bytes) : option bytes :=
+    let rs := ecdsa_sign_rs (ek_curve k) sk (H (ek_hash k) (msg ++ suffix (ek_variant k))) rnd in
+    ecdsa_frame k (fst rs) (snd rs).
+
+  Definition ed25519_sign (v : variant) (id : N) (seed msg : bytes) : outcome bytes :=
+    let r := ed25519_sign_raw seed (msg ++ suffix v) in
+    if negb (Nat.eqb (length r) 64) then Err else Ok (frame v id r).
+
+  Definition pkcs1_sign (k : rsa_key) (sk msg : bytes) : bytes :=
+    frame (rk_variant k) (rk_id k)
+      (rsa_pkcs1_sign_raw sk (rk_hash k) (H (rk_hash k) (msg ++ suffix (rk_variant k)))).
+
+  Definition pss_sign (k : rsa_key) (sk rnd msg : bytes) : bytes :=
+    frame (rk_variant k) (rk_id k)
+      (rsa_pss_sign_raw sk (rk_hash k) (rk_salt k) (H (rk_hash k) (msg ++ suffix (rk_variant k))) rnd).
 End Sig.
 
 (* observation helpers for the driver *)
